@@ -118,6 +118,13 @@ CLAIMS = {
             "Two neural-materialisation sink calls are confirmed known findings. Clean failure of the string entry points "
             "(certificates) is decided by the C16 engine where registered.",
             "call-graph reachability with verified guarded cuts, role-defined sinks"),
+    "C14": ("DESIGN.md §4 C14",
+            "Decides that in every text serializer a value written between double quotes is the result of the escaper (format "
+            "template analysis on MIR), that the writer's escape table and the decoder's table are inverse on every escaped "
+            "character (tables extracted from the char matches) and cover the characters that end a token or a line, and that "
+            "every term cleaner used by a loader decodes literal bodies (defect fixed for N-Triples/Turtle). Round-trip equality "
+            "for all Unicode strings is not decided.",
+            "MIR format-template / def-use analysis, char-switch table extraction (inverse tables)"),
 }
 
 NA = {
